@@ -857,7 +857,30 @@ def _tr_modelprocessor():
     return dict(accepts_empty=accepts, runs_empty=runs_empty)
 
 
+def _tr_concat_gap():
+    """GateCompiler._concatenate_pulses: which threshold the idle-gap test `abs(start_time - last_pulse_time) > T` uses
+    (parameter gx of Model/Concat.v, property C12): step_size * 1.0e-6 of the instruction being placed (False) or a
+    global time resolution (True).  Only the thresholds are classified here; C12 owns the function."""
+    where = F_GC + ":GateCompiler._concatenate_pulses"
+    fn = _fn(_cls(_parse(F_GC), F_GC, "GateCompiler"), F_GC, "_concatenate_pulses")
+    kinds = set()
+    for n in ast.walk(fn):
+        if isinstance(n, ast.If) and isinstance(n.test, ast.Compare) and len(n.test.ops) == 1 \
+                and isinstance(n.test.ops[0], ast.Gt) and "start_time-last_pulse_time" in u(n.test.left):
+            t = u(n.test.comparators[0])
+            if t in ("step_size*1e-06", "1e-06*step_size"):
+                kinds.add(False)
+            elif "resolution" in t and "step_size" not in t:
+                kinds.add(True)
+            else:
+                raise Broken("translator:" + where, "idle-gap threshold not recognised: " + t)
+    if len(kinds) != 1:
+        raise Broken("translator:" + where, "idle-gap test not found or inconsistent")
+    return kinds.pop()
+
+
 def generate():
+    gapres = _tr_concat_gap()
     mp = _tr_modelprocessor()
     comp = _tr_compiler()
     dev = _tr_model()
@@ -897,6 +920,8 @@ def generate():
         "   Processor.run_analytically accepts a processor without pulses *)",
         f"Definition load_accepts_empty : bool := {b(mp['accepts_empty'])}.",
         f"Definition run_accepts_no_pulse : bool := {b(mp['runs_empty'])}.",
+        "(* GateCompiler._concatenate_pulses compares idle gaps with a global time resolution (gx of Model/Concat.v) *)",
+        f"Definition concat_gap_resolution : bool := {b(gapres)}.",
         "",
     ]
     text = "\n".join(lines)
